@@ -167,6 +167,15 @@ def judge(sh: Shard, mw, label, suspend, regime, exited):
             if any(e["event"] == "CLIENT_FACADE_IS_READY" for e in ev[last_start:]):
                 sh.count("closing_event_cut_by_exit_inside_its_nested_announcement")
                 open_ = 0
+            else:
+                # the same cut, one announcement earlier: the phase is unwinding at exit (an attempt a
+                # reset had let go of disconnects its spa first), the client's handler of THAT nested
+                # announcement is suspended, and the exit's second cancellation lands in it
+                ex_i = max(i for i, e in enumerate(ev) if e["event"] == "SPA_MAN_EXIT")
+                tail_ = [e for e in ev[ex_i + 1 :] if e["task"] == "SPAMAN:Sequence Pump"]
+                if tail_ and tail_[-1].get("suspended") is not None and tail_[-1]["event"] != b:
+                    sh.count("closing_event_cut_by_exit_inside_a_suspended_nested_announcement")
+                    open_ = 0
         if open_:
             sh.violation(f"C08:I4:bracket:{name}", f"{a} never closed by {b}" + (" (the context was left while the phase was running: the cancellation did not close it)" if after_exit else ""), dict(wbase, trail=tail(len(ev) - 1)))
     for rec in api:
